@@ -5,7 +5,7 @@
    identity, ownership and which cells an operation writes, not about the numbers inside tensors.
 
    * [loc]   identity of a mutable object (a parameter tensor, an optimizer-state tensor, a Python
-             list such as [scores], an [RLParameter], a [hidden_size] list).           (binary [N])
+             list such as [scores], an [RL-param], a [hidden_size] list).           (binary [N])
    * [cval]  content identifier: equal identifiers = equal values.  A write of an opaque result
              (gradient step, noise, re-initialisation) stores a brand-new identifier.     (binary [N])
    * [store] = allocation pointer + fresh-content counter + heap (total function loc -> cval).
